@@ -16,19 +16,71 @@ const lexPart = "a : 'a' ; b : 'b' ; c : 'c' ; !ws : ' ' ;\n\n"
 var ntNames = []string{"S", "A", "B"}
 var termNames = []string{"a", "b", "c"}
 
-// GSpec is the syntax part of a generated grammar.  Alts[i] are the
-// alternatives of nonterminal ntNames[i]; an alternative is a list of symbol
-// names, the empty list stands for `empty`; an alternative may start with
-// "error".
+// GSpec is the syntax part of a grammar.  Alts[i] are the alternatives of
+// nonterminal nt(i) (ntNames[i] unless Names is set); an alternative is a list
+// of symbol names, the empty list stands for `empty`; an alternative may start
+// with "error".  Lex lists the token names of the lexical part (termNames
+// unless set; every token is the single character that is its name).
+// Hand-written grammars (check mode) carry their productions in file order in
+// Flat and their complete text in Raw instead.
 type GSpec struct {
-	Alts [][][]string
-	Tier string
+	Alts  [][][]string
+	Names []string
+	Lex   []string
+	Flat  []FlatProd
+	Raw   string
+	Tier  string
+}
+
+// FlatProd is one production; Disp gives the symbols as gocc prints them in
+// productionsTable.String (string literals keep their quotes).
+type FlatProd struct {
+	Head string
+	Body []string
+	Disp []string
+}
+
+func (s *GSpec) nt(i int) string {
+	if s.Names != nil {
+		return s.Names[i]
+	}
+	return ntNames[i]
+}
+
+func (s *GSpec) lexTokens() []string {
+	if s.Lex != nil {
+		return s.Lex
+	}
+	return termNames
+}
+
+func (s *GSpec) flat() []FlatProd {
+	if s.Flat != nil {
+		return s.Flat
+	}
+	var fl []FlatProd
+	for i, alts := range s.Alts {
+		for _, alt := range alts {
+			fl = append(fl, FlatProd{Head: s.nt(i), Body: alt, Disp: alt})
+		}
+	}
+	return fl
 }
 
 func (s *GSpec) syntaxText() string {
 	var sb strings.Builder
+	if s.Flat != nil {
+		for _, p := range s.Flat {
+			b := strings.Join(p.Disp, " ")
+			if len(p.Disp) == 0 {
+				b = "empty"
+			}
+			sb.WriteString(p.Head + " : " + b + " ;\n")
+		}
+		return sb.String()
+	}
 	for i, alts := range s.Alts {
-		sb.WriteString(ntNames[i])
+		sb.WriteString(s.nt(i))
 		sb.WriteString(" : ")
 		for j, alt := range alts {
 			if j > 0 {
@@ -45,58 +97,71 @@ func (s *GSpec) syntaxText() string {
 	return sb.String()
 }
 
-func (s *GSpec) text() string { return lexPart + s.syntaxText() }
-
-func (s *GSpec) hasError() bool {
-	for _, alts := range s.Alts {
-		for _, alt := range alts {
-			if len(alt) > 0 && alt[0] == "error" {
-				return true
-			}
-		}
+func (s *GSpec) lexText() string {
+	if s.Lex == nil {
+		return lexPart
 	}
-	return false
+	var sb strings.Builder
+	for _, t := range s.Lex {
+		sb.WriteString(t + " : '" + t + "' ; ")
+	}
+	sb.WriteString("!ws : ' ' ;\n\n")
+	return sb.String()
+}
+
+func (s *GSpec) text() string {
+	if s.Raw != "" {
+		return s.Raw
+	}
+	return s.lexText() + s.syntaxText()
 }
 
 // grammar builds the augmented grammar S' -> S with productions in grammar
-// order.  Terminal 0 is the end marker; the others are numbered in order of
-// first use (the numbering is private to the reference: tables are compared by
-// terminal NAME through token.TokMap.typeMap).
+// order (S = head of the first production).  Terminal 0 is the end marker; the
+// others are numbered in order of first use (the numbering is private to the
+// reference: tables are compared by terminal NAME through
+// token.TokMap.typeMap).  Nonterminals are the heads, numbered in order of
+// first definition; every other symbol is a terminal.
 func (s *GSpec) grammar() *Grammar {
+	fl := s.flat()
 	g := &Grammar{Terms: []string{"␚"}, End: 0, NTs: []string{"S'"}}
 	ntIdx := map[string]int{}
-	for i := range s.Alts {
-		g.NTs = append(g.NTs, ntNames[i])
-		ntIdx[ntNames[i]] = i + 1
+	for _, p := range fl {
+		if _, ok := ntIdx[p.Head]; !ok {
+			ntIdx[p.Head] = len(g.NTs)
+			g.NTs = append(g.NTs, p.Head)
+		}
 	}
 	tIdx := map[string]int{}
-	for _, alts := range s.Alts {
-		for _, alt := range alts {
-			for _, sym := range alt {
-				if _, isNT := ntIdx[sym]; isNT {
-					continue
-				}
-				if _, ok := tIdx[sym]; !ok {
-					tIdx[sym] = len(g.Terms)
-					g.Terms = append(g.Terms, sym)
-				}
+	for _, p := range fl {
+		for _, sym := range p.Body {
+			if _, isNT := ntIdx[sym]; isNT {
+				continue
+			}
+			if _, ok := tIdx[sym]; !ok {
+				tIdx[sym] = len(g.Terms)
+				g.Terms = append(g.Terms, sym)
 			}
 		}
 	}
 	nT := len(g.Terms)
 	g.Prods = append(g.Prods, Prod{Head: 0, Body: []int{nT + 1}})
-	for i, alts := range s.Alts {
-		for _, alt := range alts {
-			body := []int{}
-			for _, sym := range alt {
-				if n, isNT := ntIdx[sym]; isNT {
-					body = append(body, nT+n)
-				} else {
-					body = append(body, tIdx[sym])
-				}
+	g.ProdDisp = append(g.ProdDisp, "S' : "+fl[0].Head)
+	for _, p := range fl {
+		body := []int{}
+		for _, sym := range p.Body {
+			if n, isNT := ntIdx[sym]; isNT {
+				body = append(body, nT+n)
+			} else {
+				body = append(body, tIdx[sym])
 			}
-			g.Prods = append(g.Prods, Prod{Head: i + 1, Body: body})
 		}
+		g.Prods = append(g.Prods, Prod{Head: ntIdx[p.Head], Body: body})
+		d := strings.Join(p.Disp, " ")
+		if len(p.Body) == 0 {
+			d = "empty"
+		}
+		g.ProdDisp = append(g.ProdDisp, p.Head+" : "+d)
 	}
 	if err := g.prepare(); err != nil {
 		panic(err)
@@ -158,6 +223,19 @@ func (e *enumerator) add(alts [][][]string, tier string) bool {
 	e.seen[t] = true
 	e.specs = append(e.specs, s)
 	e.tiers[tier]++
+	return true
+}
+
+// addSpec registers a ready-made grammar (own nonterminal names and lexical
+// part) unless its text is a duplicate.
+func (e *enumerator) addSpec(s *GSpec) bool {
+	t := s.text()
+	if e.seen[t] {
+		return false
+	}
+	e.seen[t] = true
+	e.specs = append(e.specs, s)
+	e.tiers[s.Tier]++
 	return true
 }
 
@@ -319,6 +397,8 @@ func scopeSpecs(scope string) (*enumerator, bool) {
 		// Q4: error family, 1 and 2 nonterminals.
 		e.sampled("Q4-err-1nt", 13, 40, 1, 2, 2, 3, true)
 		e.sampled("Q4-err-2nt", 14, 70, 2, 2, 2, 3, true)
+		// Q5: FIRST-set propagation through chains of 4 and 5 nonterminals.
+		e.addChains("Q5-chains")
 	}
 	switch scope {
 	case "quick":
